@@ -177,12 +177,18 @@ def run_property(prop_id, module, tier="quick", seed=0, root=None, quiet=False, 
             "level": "other",
             "coverage": {
                 "explanation": getattr(module, "EXPLANATION", module.__doc__ or "static analysis"),
+                "how_decided": "Static analysis of the parsed working tree (nothing is imported or executed): the program is first brought to a normal form "
+                               "(functions / constants not in the frozen symbol table sa/known_symbols.json are expanded at their uses), then the rules are decided on "
+                               "derivation terms (flow-sensitive use-def), must-facts (bounded disjunctive path conditions, parameter facts about entry values), path and "
+                               "loop summaries (canonical terms unified with reference patterns) and CFG dominance / reachability - not on the spelling of statements.",
+                "normal_form": list(getattr(repo, "normal_notes", [])) or ["identity: every function and constant of the analysed tree is in the frozen symbol table"],
                 "obligations": obligations,
                 "discharged": discharged,
                 "checker_cmd": "./check %s" % prop_id,
                 "trusted_base": ["CPython ast module (parser of the interpreter the repository runs on)",
                                  "the rule tables in sa/props/%s.py" % prop_id.lower(),
-                                 "the engine in sa/ (resolver, CFG, dominators, term reconstruction)"],
+                                 "the engine in sa/ (resolver, normal form, CFG, dominators, term reconstruction, must-facts, path / loop summaries)",
+                                 "sa/known_symbols.json (the functions the rules were written against; anything else is expanded at its call sites)"],
                 "rules": [r.to_json() for r in rules],
                 "rule_instances": n_inst,
                 "files_parsed": len(repo.modules),
